@@ -14,6 +14,7 @@ import (
 	"strings"
 	"sync/atomic"
 	"time"
+	"unsafe"
 
 	"github.com/whoisnian/glb/util/ioutil"
 	"verif/harness/internal/evlog"
@@ -38,6 +39,18 @@ type under struct {
 	b      *evlog.Buf
 	script []step
 	i      int
+	unit   int // byte counts are recorded in this unit (1, or 1 MiB in the multi-gigabyte run)
+}
+
+// scaled converts a byte count to the run's unit; a count that is not a whole number of units is recorded as an impossible value
+func scaled(n, unit int) int {
+	if unit <= 1 {
+		return n
+	}
+	if n%unit != 0 || n < 0 {
+		return 99999999
+	}
+	return n / unit
 }
 
 func (u *under) next(req int) (int, error) {
@@ -49,7 +62,7 @@ func (u *under) next(req int) (int, error) {
 	if st.n > req {
 		st.n = req
 	}
-	u.b.Emit(ev{E: "u", N: st.n, Err: st.err, Req: req})
+	u.b.Emit(ev{E: "u", N: scaled(st.n, u.unit), Err: st.err, Req: scaled(req, u.unit)})
 	if st.err {
 		return st.n, errors.New("scripted failure")
 	}
@@ -86,6 +99,8 @@ func main() {
 	rng := rand.New(rand.NewSource(vio.Seed()))
 	w := vio.Create(*out)
 	defer w.Close()
+	bigBuf := make([]byte, 64<<20) // never touched: the scripted writers only report counts
+	bigStr := unsafe.String(&bigBuf[0], len(bigBuf))
 	for run := 0; run < *runs; run++ {
 		log := evlog.New()
 		wb, cb, mb := log.Buf(), log.Buf(), log.Buf()
@@ -93,8 +108,22 @@ func main() {
 		if run%5 == 0 {
 			nw = 200 + rng.Intn(300) // many small writes against a concurrently draining consumer
 		}
-		u := &under{b: wb}
+		u := &under{b: wb, unit: 1}
+		huge := run == *runs-1 // one run moves more than 4 GiB: totals beyond 2^32 (a large download), counted in MiB
+		if huge {
+			nw = 90
+			u.unit = 1 << 20
+		}
 		for i := 0; i < nw; i++ {
+			if huge {
+				switch i % 3 {
+				case 2:
+					u.script = append(u.script, step{(1 + rng.Intn(40)) << 20, true}) // short and failed
+				default:
+					u.script = append(u.script, step{64 << 20, false})
+				}
+				continue
+			}
 			switch rng.Intn(6) {
 			case 0:
 				u.script = append(u.script, step{rng.Intn(8), false}) // short write
@@ -120,16 +149,29 @@ func main() {
 			defer close(done)
 			for i := 0; i < nw; i++ {
 				req := 1 + rng.Intn(12)
-				if rng.Intn(2) == 0 {
-					wb.Emit(ev{E: "wb", Req: req, Kind: "Write"})
-					n, err := pw.Write(make([]byte, req))
-					wb.Emit(ev{E: "we", N: n, Err: err != nil})
-				} else {
-					wb.Emit(ev{E: "wb", Req: req, Kind: "WriteString"})
-					n, err := pw.WriteString(strings.Repeat("x", req))
-					wb.Emit(ev{E: "we", N: n, Err: err != nil})
+				if huge {
+					req = 64 << 20
 				}
-				wb.Emit(ev{E: "size", N: pw.Size()})
+				if rng.Intn(2) == 0 {
+					wb.Emit(ev{E: "wb", Req: scaled(req, u.unit), Kind: "Write"})
+					buf := bigBuf[:0]
+					if huge {
+						buf = bigBuf
+					} else {
+						buf = make([]byte, req)
+					}
+					n, err := pw.Write(buf)
+					wb.Emit(ev{E: "we", N: scaled(n, u.unit), Err: err != nil})
+				} else {
+					wb.Emit(ev{E: "wb", Req: scaled(req, u.unit), Kind: "WriteString"})
+					str := bigStr
+					if !huge {
+						str = strings.Repeat("x", req)
+					}
+					n, err := pw.WriteString(str)
+					wb.Emit(ev{E: "we", N: scaled(n, u.unit), Err: err != nil})
+				}
+				wb.Emit(ev{E: "size", N: scaled(pw.Size(), u.unit)})
 			}
 			writerDone.Store(true)
 			closing.Store(true)
@@ -150,7 +192,7 @@ func main() {
 			}
 			for {
 				v, ok := <-pw.Status()
-				cb.Emit(ev{E: "r", N: v, OK: ok})
+				cb.Emit(ev{E: "r", N: scaled(v, u.unit), OK: ok})
 				if !ok {
 					return
 				}
